@@ -124,6 +124,10 @@ func (c *Ctx) choose(kind string, n int, costs []int) int {
 	if n <= 0 {
 		c.fatalDivergence(fmt.Sprintf("Choose(%s,%d): no alternatives", kind, n))
 	}
+	if n == 1 {
+		// not a real choice point; never recorded (keeps prefixes short)
+		return 0
+	}
 	i := len(c.choices)
 	ch := 0
 	if i < len(c.prefix) {
@@ -135,10 +139,6 @@ func (c *Ctx) choose(kind string, n int, costs []int) int {
 		if ch < 0 || ch >= n {
 			c.fatalDivergence(fmt.Sprintf("replay divergence at point %d (%s): recorded choice %d but only %d alternatives", i, kind, ch, n))
 		}
-	}
-	if n == 1 {
-		// not a real choice point; do not record (keeps prefixes short)
-		return 0
 	}
 	c.choices = append(c.choices, ch)
 	c.points = append(c.points, point{kind, n, costs})
